@@ -684,12 +684,12 @@ func c16Run(c *Ctx) {
 		for k := 0; k < 2+r.Intn(3); k++ {
 			switch x := r.Intn(100); {
 			case x < 35:
-				ids = append(ids, ident{"tok.acreate " + genParams(r).line(), []string{"1", "3"}})
+				ids = append(ids, ident{"tok.acreate " + genParams(r).line(), []string{"1", "3", "4"}})
 			case x < 55:
 				l := genParams(r).line()
 				ids = append(ids, ident{fmt.Sprintf("tok.aeflo %s %s %s", l[:strings.LastIndex(l, " ")], hexStr("i-1"), hexStr("z1")), []string{"1", "2"}})
 			default:
-				ids = append(ids, ident{fmt.Sprintf("tok.%sassign%d %s %d", Pick(r, []string{"a", "b"}), Pick(r, []int{4, 6}), hexStr(Pick(r, []string{"eni-1", "eni-2"})), 1+r.Intn(2)), []string{"1", "3"}})
+				ids = append(ids, ident{fmt.Sprintf("tok.%sassign%d %s %d", Pick(r, []string{"a", "b"}), Pick(r, []int{4, 6}), hexStr(Pick(r, []string{"eni-1", "eni-2"})), 1+r.Intn(2)), []string{"1", "3", "4"}})
 			}
 		}
 		fails := 0
@@ -701,6 +701,9 @@ func c16Run(c *Ctx) {
 				fails++
 			}
 			ops = append(ops, id.head+" "+fail)
+			if fail != "0" {
+				c.Count("api-fail-mode-" + fail)
+			}
 		}
 		c.Count("api-history")
 		add(ops, fails > 0)
